@@ -93,3 +93,9 @@ def canon_serve(out):
     else:
         body_s = body.hex()
     return "S%d %s | %s | %s | %s" % (st, reason.decode("latin-1"), hs_s, body_s, ret)
+
+
+# char::is_whitespace (White_Space): what str::trim removes.  Python's str.strip() also removes U+001C..U+001F, Rust does not.
+RUST_WS = "\t\n\x0b\x0c\r \x85\xa0\u1680\u2000\u2001\u2002\u2003\u2004\u2005\u2006\u2007\u2008\u2009\u200a\u2028\u2029\u202f\u205f\u3000"
+def rust_trim(s):
+    return s.strip(RUST_WS)
